@@ -140,7 +140,7 @@ func startServer(useTLS, udp bool, w *wires, h *handler) *testServer {
 			Handler:        h,
 			WriteQueueSize: 1024,
 			RTSPAddress:    "127.0.0.1:0",
-			ListenPacket:   tapListenPacket(w.srvUDP, nil),
+			ListenPacket:   tapListenPacket(w.srvUDP, w.srvUDPIn),
 		}
 		listen := func(network, address string, cfg *tls.Config) (net.Listener, error) {
 			ln, err := net.Listen(network, address)
@@ -189,7 +189,7 @@ func newClient(w *wires, proto *gortsplib.Protocol) *gortsplib.Client {
 	return &gortsplib.Client{
 		WriteQueueSize: 1024,
 		Protocol:       proto,
-		ListenPacket:   tapListenPacket(w.cliUDP, nil),
+		ListenPacket:   tapListenPacket(w.cliUDP, w.cliUDPIn),
 		DialContext: func(ctx context.Context, network, addr string) (net.Conn, error) {
 			c, err := dial(ctx, network, addr)
 			if err != nil {
@@ -289,6 +289,18 @@ func (f *flow) makeRTCP() rtcp.Packet {
 	f.mu.Unlock()
 	return &rtcp.ApplicationDefined{SubType: 3, SSRC: 0x0badcafe, Name: "VRFY", Data: marker}
 }
+
+// the write was refused with "write queue is full" (a signalled refusal: the feedback direction has an
+// 8-entry queue): the packet was never sent, so it is not expected either
+func (f *flow) unsendLastRTCP() {
+	f.mu.Lock()
+	if n := len(f.rtcpSent); n > 0 {
+		f.rtcpSent = f.rtcpSent[:n-1]
+	}
+	f.mu.Unlock()
+}
+
+func queueFull(err error) bool { return err != nil && strings.Contains(err.Error(), "queue is full") }
 
 func (f *flow) onRTP(pkt *rtp.Packet) {
 	k := ""
@@ -394,7 +406,8 @@ type e2eRes struct {
 	notes        []string
 	rocSeen      int64
 	lateGot      int64
-	extraReads   int64 // datagrams read by the late joiner's sockets
+	extraReads   int64        // datagrams read by the late joiner's sockets
+	refused      atomic.Int64 // feedback RTCP writes refused with "write queue is full" (signalled, not sent)
 	lateSent     int64
 	setupProfile headers.TransportProfile
 	setupProto   gortsplib.Protocol
@@ -512,9 +525,24 @@ func runE2E(cfg e2eCfg) *e2eRes {
 		}
 		return true
 	}
+	// units the sending side has really put on its carrier (injected copies excluded)
+	drained := func() int64 {
+		a, b := w.srvUDP, w.srvFrames
+		if cfg.record {
+			a, b = w.cliUDP, w.cliFrames
+		}
+		n := int64(0)
+		for _, x := range []*wire{a, b} {
+			x.mu.Lock()
+			n += int64(len(x.units) - x.injected)
+			x.mu.Unlock()
+		}
+		return n
+	}
 	send := func(f *flow, k int, write func(pt uint8, seq uint16) error, rtcpEvery int, writeRTCP func() error) {
 		sent := int64(0)
 		slack := int64(48)
+		base := drained()
 		for i := 0; i < k; i++ {
 			for fi := 0; fi < cfg.nFormats; fi++ {
 				if err := write(uint8(96+fi), cfg.startSeq+uint16(i)); err != nil {
@@ -529,6 +557,9 @@ func runE2E(cfg e2eCfg) *e2eRes {
 				}
 			}
 			if i%16 == 15 {
+				// never more than 256 packets in the sender's write queue (loss cannot fill it) ...
+				waitFor(func() bool { return drained()-base >= sent-256 }, 10*time.Second)
+				// ... and not faster than the receiver consumes
 				if !catchUp(f, sent-slack) {
 					slack = sent - f.nGot.Load() + 48
 				}
@@ -579,13 +610,16 @@ func runE2E(cfg e2eCfg) *e2eRes {
 			return stream.WritePacketRTP(medi, res.fwd.makeRTP(pt, seq))
 		}, 40, func() error {
 			// feedback: client -> server RTCP, and (back channel) client -> server RTP
-			if err := cl.WritePacketRTCP(cdesc.Medias[0], res.rev.makeRTCP()); err != nil {
+			if err := cl.WritePacketRTCP(cdesc.Medias[0], res.rev.makeRTCP()); queueFull(err) {
+				res.rev.unsendLastRTCP()
+				res.refused.Add(1)
+			} else if err != nil {
 				return err
 			}
 			if back != nil {
 				for j := 0; j < 4; j++ {
 					if err := cl.WritePacketRTP(back, res.rev.makeRTP(8, backSeq)); err != nil {
-						return err
+						return fmt.Errorf("back channel: %w", err)
 					}
 					backSeq++
 				}
@@ -686,10 +720,16 @@ func runE2E(cfg e2eCfg) *e2eRes {
 			return cl.WritePacketRTP(medi, res.fwd.makeRTP(pt, seq))
 		}, 40, func() error {
 			ss := session.Load()
-			if err := ss.WritePacketRTCP(ss.AnnouncedDescription().Medias[0], res.rev.makeRTCP()); err != nil {
-				return err
+			if err := ss.WritePacketRTCP(ss.AnnouncedDescription().Medias[0], res.rev.makeRTCP()); queueFull(err) {
+				res.rev.unsendLastRTCP()
+				res.refused.Add(1)
+			} else if err != nil {
+				return fmt.Errorf("server session -> client: %w", err)
 			}
-			return cl.WritePacketRTCP(medi, res.fwd.makeRTCP())
+			if err := cl.WritePacketRTCP(medi, res.fwd.makeRTCP()); err != nil {
+				return fmt.Errorf("client -> server: %w", err)
+			}
+			return nil
 		})
 		waitFor(func() bool {
 			res.rev.mu.Lock()
@@ -732,7 +772,8 @@ func judgeE2E(r *e2eRes) {
 	ctx.Extra("e2e_"+cfg.name, map[string]any{
 		"sent": total, "delivered": r.fwd.nGot.Load(), "rtcp_sent": len(r.fwd.rtcpSent), "rtcp_delivered": r.fwd.rtcpGot.Load(),
 		"feedback_rtcp_sent": len(r.rev.rtcpSent), "feedback_rtcp_delivered": r.rev.rtcpGot.Load(), "feedback_rtp_delivered": r.rev.nGot.Load(),
-		"altered_injected": r.injectedFwd, "altered_injected_feedback": r.injectedRev,
+		"feedback_writes_refused_queue_full": r.refused.Load(),
+		"altered_injected":                   r.injectedFwd, "altered_injected_feedback": r.injectedRev,
 		"decode_errors_receiver": r.decodeErrRcv.Load(), "decode_errors_sender_side": r.decodeErrSnd.Load(),
 		"udp_datagrams": len(w.srvUDP.units) + len(w.cliUDP.units), "frames": len(w.srvFrames.units) + len(w.cliFrames.units),
 		"tcp_bytes": w.srvRaw.bytes + w.cliRaw.bytes, "roc_seen_by_late_joiner": r.rocSeen, "late_delivered": r.lateGot,
